@@ -26,13 +26,14 @@ namespace ratio
         {
         case False:
             init(); // we create a new graph var..
-            if (get_flaws().empty()) // there is nothing left to expand: the graph is exhausted..
-                throw unsolvable_exception();
-            if (std::any_of(get_flaws().cbegin(), get_flaws().cend(), [](flaw *f)
-                            { return is_positive_infinite(f->get_estimated_cost()); })) // we build/extend the graph..
-                build();
-            else // we add a layer to the current graph..
-                add_layer();
+            if (!get_flaws().empty())
+            {
+                if (std::any_of(get_flaws().cbegin(), get_flaws().cend(), [](flaw *f)
+                                { return is_positive_infinite(f->get_estimated_cost()); })) // we build/extend the graph..
+                    build();
+                else // we add a layer to the current graph..
+                    add_layer();
+            }
             [[fallthrough]];
         case Undefined:
 #ifdef GRAPH_PRUNING
